@@ -28,10 +28,31 @@ ZERO = (K('const', 0), K('const', 0.0))
 _NEG = {'==': '!=', '!=': '==', '<': '>=', '>=': '<', '>': '<=', '<=': '>'}
 
 
+_FLIP = {'==': '==', '!=': '!=', '<': '>', '>': '<', '<=': '>=', '>=': '<='}
+
+
+def _count_cmp(g):
+    """a count of a value that occurs is an integer >= 1: `cnt > 1`, `cnt >= 2`, `1 < cnt` are `cnt != 1`; `cnt < 2`, `cnt <= 1` are `cnt == 1`"""
+    if g[0] != 'cmp':
+        return g
+    op, l, r = g[1], g[2], g[3]
+    if l[0] == 'const' and r[0] == 'cnt':
+        op, l, r = _FLIP[op], r, l
+    if l[0] == 'cnt' and r[0] == 'const' and isinstance(r[1], int) and not isinstance(r[1], bool):
+        if (op, r[1]) in (('>', 1), ('>=', 2)):
+            return K('cmp', '!=', l, K('const', 1))
+        if (op, r[1]) in (('<', 2), ('<=', 1)):
+            return K('cmp', '==', l, K('const', 1))
+        return K('cmp', op, l, r)
+    return g
+
+
 def canon_guard(g):
     """`if c: continue` (skip-if c) and an else branch (not c) are the positive guard with the comparison negated"""
+    if g[0] == 'cmp':
+        return _count_cmp(g)
     if g[0] in ('skip', 'not') and g[1][0] == 'cmp' and g[1][1] in _NEG:
-        return K('cmp', _NEG[g[1][1]], *g[1][2:])
+        return _count_cmp(K('cmp', _NEG[g[1][1]], *g[1][2:]))
     if g[0] in ('skip', 'not') and g[1][0] in ('skip', 'not'):
         return canon_guard(g[1][1]) if g[1][1][0] in ('skip', 'not', 'cmp') else g
     return g
